@@ -163,8 +163,47 @@ def roundtrips(p, exp, tol, label):
     return dis
 
 
+def exp_of_path(p):
+    """the expected segments (spec vocabulary) read off a parsed path - for data whose interpretation C01 has validated"""
+    import math
+    exp = []
+    for g in p:
+        k = KIND.get(type(g).__name__)
+
+        def q(v):
+            return None if v is None else [v.x, v.y]
+        if k == "M":
+            exp.append(["M", None, None, None, q(g.end)])
+        elif k in ("L", "Z"):
+            exp.append([k, q(g.start), None, None, q(g.end)])
+        elif k == "Q":
+            exp.append(["Q", q(g.start), q(g.control), None, q(g.end)])
+        elif k == "C":
+            exp.append(["C", q(g.start), q(g.control1), q(g.control2), q(g.end)])
+        else:
+            exp.append(["A", q(g.start), [g.rx, g.ry, g.get_rotation().as_degrees], [1 if abs(g.sweep) > math.pi else 0, 1 if g.sweep > 0 else 0], q(g.end)])
+    return exp
+
+
 def check_case(case):
     dis = []
+    if "random_d" in case:
+        d0 = case["random_d"]
+        try:
+            p = svg.Path(d0)
+        except Exception:
+            return {"dis": [], "nontrivial": False, "class": "random"}
+        if any(isinstance(g, svg.Arc) and (g.sweep == 0 or abs(abs(g.sweep) - 3.141592653589793) < 1e-9) for g in p):
+            # zero-radius / coincident arcs are lines or nothing (C05), exact half turns are ill-conditioned: the exhaustive families own them
+            return {"dis": [], "nontrivial": False, "class": "random"}
+        exp = exp_of_path(p)
+        tol = 1e-10 * magnitude(exp)
+        for x in roundtrips(p, exp, tol, "random %r:" % d0):
+            dis.append(x)
+        for d in dis:
+            d["has_arc"] = any(e[0] == "A" for e in exp)
+            d["class"] = "random"
+        return {"dis": dis, "nontrivial": len(exp) >= 3, "class": "random:" + "".join(e[0] for e in exp), "checked": ["Count", "Kind", "Start", "End", "Control", "ArcGeometry"]}
     if "hist" in case:
         hist, segs = case["hist"], case["segs"]
         u = Decimal(UNITS[(case["seed"] + len(repr(hist))) % len(UNITS)])
@@ -243,6 +282,17 @@ def run(tier, seed):
             if n % 1500 == 5:
                 run.sample({k: case[k] for k in case if k != "seed"})
             n += 1
+        # long random conforming data (the generator of C01's recorded traces, whose interpretation TLC validates there)
+        import random
+        from . import c01_trace
+        rng = random.Random(seed * 3001 + 7)
+        rnd = []
+        for _ in range(600 if tier == "quick" else 12000):
+            cmds = [c for c in c01_trace.gen_commands(rng, rng.randint(3, 20)) if not c[2]]      # (no completing z: written as a plain close)
+            rnd.append({"random_d": c01_trace.to_d(cmds, rng), "seed": seed})
+        for case, r in engine.replay("harness.c07", rnd, chunk=100):
+            run.record(case, r, key=r["class"])
+        run.extra["random_paths"] = len(rnd)
     finally:
         engine.cleanup(work)
     run.rule = ("cases = PathInterp behaviours (<= MaxCmds commands, no completing z) in unit 1 and in a seeded decimal unit, x 9 "
